@@ -20,6 +20,9 @@ panic.c, backtrace.c under ASan/UBSan.
   back), longest deliverable payload (2047), DLCIs with an escaped address octet, a second
   over-long frame.  A payload of >= 2048 octets must never reach a handler; a panic / abort /
   sanitizer death is reported as C06:dlci=0x..:after-overlong:crash.
+* Handlers on a subset of the DLCIs: for every DLCI d handlers on {d} plus every subset of {0x7D, 0x7E, d^0x20};
+  frames to registered and unregistered DLCIs interleaved (one at a time / all queued first).  A frame for a DLCI
+  without handler reaches no handler and costs no other frame.
 * Transmit backlog: 255 / 256 / 257 / 512 messages queued (one DLCI; two DLCIs alternating; behind one message of
   a lower DLCI; while a frame is already on the wire), then drained: exactly once, in order, transmitter idle after.
 * DLCI 128 (built-in echo, handler = sercomm_sendmsg): every payload of length 0..2; the echo is
@@ -68,11 +71,11 @@ RESYNC_PARTS = 64
 RESYNC_FRAME_SETS = 7
 
 
-def _build(b):
+def _build(b, opt="-O2"):
     flags = cbuild.firmware_flags(b) + ["-DHOST_BUILD", "-I", os.path.join(cbuild.FW, "include/comm"), "-I", cbuild.FW]
     src = [os.path.join(cbuild.CSRC, "drv_c06.c")] + [os.path.join(cbuild.LIBOSMO, "src", f)
                                                        for f in ("msgb.c", "talloc.c", "panic.c", "backtrace.c")]
-    return cbuild.compile(b, "drv_c06", src, flags, opt="-O2")
+    return cbuild.compile(b, "drv_c06", src, flags, opt=opt)
 
 
 def _san_summary(err):
@@ -174,6 +177,47 @@ def _report_hd(ctx, r, confirmed):
                       "%s (e.g. after %s) - seen inside the exploration [%s], but %s; %s" % (msg, example, r["name"], note, HD_TEXT))
 
 
+class _Collector:
+    """Stands in for ctx while the results are gathered, so that violation classes that differ only in the DLCI can be
+    folded before they are reported (every reported class costs two confirming replays with a fresh build)."""
+    def __init__(self):
+        self.items = []
+
+    def violation(self, key, case, msg):
+        self.items.append((key, case, msg))
+
+
+FOLD_KEEP = 1        # DLCIs reported per failure kind (the message says how many more); classes matching an open known finding are always reported
+
+
+def _emit_folded(ctx, items):
+    from vlib import runner
+    known = runner.load_known()
+    per_kind, kept, seen, folded = {}, [], set(), 0
+    for key, case, msg in items:
+        if key in seen:
+            ctx.n_violations += 1
+            continue
+        seen.add(key)
+        m = re.match(r"^C06:dlci=0x([0-9a-f]{2}):(.+)$", key)
+        if not m or runner.match_known(known, "C06", key):
+            kept.append([key, case, msg, None])
+            continue
+        lst = per_kind.setdefault(m.group(2), [])
+        if len(lst) < FOLD_KEEP:
+            rec = [key, case, msg, m.group(2)]
+            lst.append(rec)
+            kept.append(rec)
+        else:
+            lst.append(None)
+            folded += 1
+            ctx.n_violations += 1
+    for key, case, msg, kind in kept:
+        more = len(per_kind[kind]) - FOLD_KEEP if kind else 0
+        ctx.violation(key, case, msg + (" (the same failure kind was seen on %d further DLCIs, not listed)" % more if more > 0 else ""))
+    return folded
+
+
 def run(ctx):
     global _exe
     b = cbuild.builddir("c06")
@@ -187,6 +231,7 @@ def run(ctx):
         jobs += [("resync[%d/%d]" % (i, RESYNC_PARTS), ["resync", i, RESYNC_PARTS], tmo) for i in range(RESYNC_PARTS)]
         jobs.append(("echo", ["echo"], tmo))
         jobs.append(("backlog", ["backlog"], tmo))
+        jobs += [("regsweep[dlci %d..%d]" % (d, d + 31), ["regsweep", d, d + 32], tmo) for d in range(0, 128, 32)]
         results = ctx.pmap(_job, jobs)
 
         c = ctx.cov
@@ -194,17 +239,18 @@ def run(ctx):
                 "noise_transitions", "overlong_transitions", "states_out_of_sync", "states_mid_frame")
         other = ("transfers", "special_tuples", "boundary_cases", "resync_scenarios", "echo_cases", "frames", "exact_deliveries",
                  "tolerated_deliveries", "wire_octets", "escapes", "noise_octets", "overlong_frames", "dlcis",
-                 "echoes_queued", "scenarios_abandoned_in_window", "backlog_cases", "backlog_frames", "history_dependent_keys", "verify_requests",
+                 "echoes_queued", "scenarios_abandoned_in_window", "backlog_cases", "backlog_frames", "regsweep_cases", "frames_to_unregistered_dlci", "history_dependent_keys", "verify_requests",
                  "sampled_traces_rerun_alone", "sampled_traces_differing")
         for k in sums + other:
             c[k] = 0
         bfs, complete, depth = {}, True, 0
         confirmed = set()
-        oks = [_report(ctx, r, confirmed) for r in results]
+        col = _Collector()
+        oks = [_report(col, r, confirmed) for r in results]
         for r, ok in zip(results, oks):
             if _died(r):
-                _report_crash(ctx, r)
-            _report_hd(ctx, r, confirmed)
+                _report_crash(col, r)
+            _report_hd(col, r, confirmed)
             complete = complete and ok
             js = r["js"] or {}
             if r["args"][0] == "bfs" and ok:
@@ -218,6 +264,7 @@ def run(ctx):
             if ok:
                 for k in other:
                     c[k] += js.get(k, 0)
+        c["violation_classes_folded"] = _emit_folded(ctx, col.items)
         c["bfs_runs"] = bfs
         c["depth_reached"] = depth
         c["frontier_exhausted_runs"] = sum(1 for x in bfs.values() if x["frontier_exhausted"])
@@ -231,7 +278,7 @@ def run(ctx):
         # bound is complete within that bound); cases cut short by a violation do not count as a hole
         c["exhaustive"] = bool(complete and len(bfs) == len(cfgs) and c["dlcis"] == 128 and c["transfers"] == c["transfers_expected"]
                                and c["resync_scenarios"] == c["resync_scenarios_expected"] and c["echo_cases"] == 1 + 256 + 65536 + 9
-                               and c["backlog_cases"] == 16)
+                               and c["backlog_cases"] == 16 and c["regsweep_cases"] == 128 * 8 * 2)
         c["distinct_outcomes"] = {"exact_deliveries": c["exact_deliveries"], "deliveries_inside_tolerance_window": c["tolerated_deliveries"],
                                   "frames_on_wire": c["frames"], "escaped_octets": c["escapes"]}
         ctx.sample({"space_A_events": "s9.410042,p,p,s5.7e,p,p,p,p,p,p,p", "meaning": "send on DLCI 9, two octets out, send on DLCI 5 mid-frame, drain"})
@@ -258,7 +305,8 @@ def replay(ctx, case):
     global _exe
     b = cbuild.builddir("c06r")
     try:
-        _exe = _build(b)
+        # a single case needs no optimised driver (the build is most of a replay's time); re-running a whole job does
+        _exe = _build(b, "-O2" if "hd_key" in case or case.get("token", "-") == "-" else "-O1")
         tok = case.get("token", "-")
         if "hd_key" in case:
             # history-dependent result: only the whole (deterministic) run shows it again
